@@ -656,6 +656,43 @@ def gen_case(rng, tier):
                 ops.append(["gMargins", name])
                 ops.append(["gMetrics", name])
     case = dict(mode=mode, ops=ops)
+    held_glyphs = [x for x in order if glyphs[x]["n"]]
+    if in_font and held_glyphs and rng.random() < 0.12:
+        # a batch edit: the notifications of a contour (or of its glyph) are held or disabled by the user around
+        # reversals / direction assignments, the caches being warm; judged right after each call and after the
+        # release.  Last in the history (what is cached above a contour whose notifications were disabled is left
+        # stale by design) and oracle only.
+        name = rng.choice(held_glyphs)
+        g = glyphs[name]
+        i = rng.randrange(len(g["n"]))
+        how = rng.choice(["hold-c", "hold-c", "disable-c", "hold-g", "disable-g"])
+        creads = [["cArea", name, i], ["cBounds", name, i], ["cCpb", name, i], ["cOpen", name, i], ["cPoints", name, i]]
+        ops.append(["cArea", name, i])
+        for o in rng.sample(creads, rng.randint(0, 3)):
+            ops.append(o)
+        if how.startswith("hold") and rng.random() < 0.5:
+            ops.append(rng.choice([["gArea", name], ["gBounds", name]]))
+        ops.append(["hold", name, i, how])
+        for _ in range(rng.randint(1, 3)):
+            if rng.random() < 0.5:
+                ops.append(["cReverse", name, i])
+            else:
+                ops.append(["cSetClockwise", name, i, rng.random() < 0.5])
+            ops.append(["cArea", name, i])
+            if rng.random() < 0.4:
+                ops.append(rng.choice(creads))
+        ops.append(["release", name, i, how])
+        ops.append(["cArea", name, i])
+        for o in rng.sample(creads, rng.randint(0, 2)):
+            ops.append(o)
+        if how.startswith("hold"):
+            for o in rng.sample([["gArea", name], ["gBounds", name], ["gCpb", name], ["gMargins", name]], rng.randint(1, 3)):
+                ops.append(o)
+        if rng.random() < 0.5:
+            ops.append(["cSetClockwise", name, i, rng.random() < 0.5])
+            ops.append(["cArea", name, i])
+        case["held"] = True
+        return case
     if in_font and rng.random() < 0.14:
         # an observer (a view, a tool) that looks at the geometry from INSIDE the notifications the mutations post
         names = [n for ns in WATCHED.values() for n in ns if rng.random() < 0.7]
@@ -788,7 +825,7 @@ def enc_op(op, mode):
 def model_lines(case):
     # histories with an in-callback reader are judged by the oracle only: its reads fill caches at moments the
     # model's operation granularity does not have
-    mode = "float" if case.get("watch") else case.get("mode", "exact")
+    mode = "float" if (case.get("watch") or case.get("held")) else case.get("mode", "exact")
     return [enc_op(op, mode) for op in case["ops"]]
 
 
@@ -1073,6 +1110,18 @@ class Impl(object):
             return _box(b)
         if k == "kTransform":
             return [Atom("transform")] + [ratom(x) for x in g.components[op[2]].transformation]
+        if k in ("hold", "release"):
+            obj = g[op[2]] if op[3].endswith("-c") else g
+            if k == "hold":
+                if op[3].startswith("hold"):
+                    obj.holdNotifications()
+                else:
+                    obj.disableNotifications()
+            elif op[3].startswith("hold"):
+                obj.releaseHeldNotifications()
+            else:
+                obj.enableNotifications()
+            return ok
         if k == "kCached":
             comp = g.components[op[2]]
             return [Atom("cached"), bool(comp.hasCachedRepresentation("defcon.component.bounds")),
@@ -1257,6 +1306,7 @@ def run_impl(case):
     watch = case.get("watch")
     if watch:
         impl.watcher = _Watcher(impl, watch, mode)
+    oracle_only = bool(watch or case.get("held"))
     outs = []
     viol = []
     stats = {"mode." + mode: 1, "len": len(case["ops"])}
@@ -1305,7 +1355,7 @@ def run_impl(case):
                 viol.append(v)
         if k == "world":
             outs.append(Atom("ok"))
-        elif mode == "float" or k == "inside" or watch:
+        elif mode == "float" or k == "inside" or oracle_only:
             outs.append(Atom("skip"))
         else:
             outs.append(val)
